@@ -116,3 +116,11 @@ Theorem C17_equiv :
     /\ exists o', loads b (untrusted b) = Ok o' /\ equiv o' o.
 Proof. exact convert_equiv. Qed.
 Print Assumptions C17_equiv.
+
+(* the hypotheses (cfits, output <> input) are satisfiable and the warning case occurs *)
+Theorem C17_nonvacuous :
+  forallb (fun c => cfits c ex_cfs && negb (path_eqb (out_path c) (in_path c)))
+    [ex_ccfg (Some (s "out.skops")) (Ok [9]); ex_ccfg None (Ok [9]); ex_ccfg (Some (s "sub/o.skops")) (Raise EUnsupported)] = true
+  /\ warnings (fst (convert_run (ex_ccfg None (Ok [9])))) <> [].
+Proof. exact cfits_examples. Qed.
+Print Assumptions C17_nonvacuous.
